@@ -459,7 +459,16 @@ func check(surface string, mode int, data []byte, planted bool) string {
 	o := run(240 * time.Second)
 	if o.TimedOut {
 		atomic.StoreInt32(&spinSeen, 1)
-		return fmt.Sprintf("surface %s mode %d: decoder did not return within 240 s on a %d-byte input (spin / unbounded loop)", surface, mode, len(data))
+		v := fmt.Sprintf("surface %s mode %d: decoder did not return within 240 s on a %d-byte input (spin / unbounded loop)", surface, mode, len(data))
+		// the spinning goroutine cannot be stopped and may keep allocating: record the input and end the process
+		c := Case{Surface: surface, Mode: mode, Note: "spin"}
+		if len(data) <= 1<<16 {
+			c.Hex = fmt.Sprintf("%x", data)
+		}
+		kit.Violation("C13", v, c)
+		fmt.Printf("--- FAIL: C13 violated: %s\n", v)
+		kit.FlushAndExit(1)
+		return v
 	}
 	if o.Elapsed > 4*time.Second {
 		ev.Class("slow-under-load")
